@@ -89,6 +89,8 @@ func hangFeature(r *Result) string {
 			return "hang:eof-in-header-param-type"
 		case strings.Contains(f, "stringLexer"):
 			return "hang:eof-in-string"
+		case f == "lexLineComment":
+			return "hang:eof-in-line-comment"
 		case f == "lexBlockComment":
 			return "hang:eof-in-block-comment"
 		case f == "lexSoyDoc" || f == "lexSoyDocParam":
@@ -358,7 +360,8 @@ func (c *Confirmer) confirmOne(j confirmJob, in *Input, r *Result, dir string, k
 			ok()
 			ctx.Violation(core.Sig{Family: "no-panic", Feature: "crash-in-scanner-goroutine:" + PanicKind(p1.Panic) + "@" + p1.Frame1},
 				fmt.Sprintf("%s kills the process: %s", what, p1.Panic), rp)
-		case p1.Returned && p2.Returned && strings.HasPrefix(j.feature, "steps:"):
+		case p1.Returned && p2.Returned && strings.HasPrefix(j.feature, "steps:") &&
+			p1.Steps > int64(stepBound(len(in.Text))) && p2.Steps > int64(stepBound(len(in.Text))):
 			ok()
 			ctx.Violation(sig, fmt.Sprintf("%s: more than %d*len+%d state-function steps for %d bytes (not proportional to the input)",
 				what, StepC, StepD, len(in.Text)), rp)
